@@ -291,6 +291,8 @@ class RMSNormPlugin(PrimitiveLeafPlugin):
                 or x_ir_dtype in {ir.DataType.FLOAT, ir.DataType.DOUBLE}
             )
             and hasattr(builder, "RMSNormalization")
+            # RMSNormalization normalises over axis..rank-1, the primitive over axis only
+            and axis == rank - 1
         ):
             y_val = cast(
                 ir.Value,
@@ -417,6 +419,20 @@ class RMSNormPlugin(PrimitiveLeafPlugin):
                 return orig(self, x, mask=mask)
 
             x_arr = jnp.asarray(x)
+            ndim = x_arr.ndim
+
+            def _axes(value: Any) -> tuple[int, ...]:
+                seq = tuple(value) if isinstance(value, Sequence) else (value,)
+                return tuple(sorted(int(a) % ndim for a in seq))
+
+            if ndim == 0:
+                return orig(self, x, mask=mask)
+            feature_axes = _axes(getattr(self, "feature_axes", -1))
+            reduction_axes = _axes(getattr(self, "reduction_axes", -1))
+            if len(feature_axes) != 1 or reduction_axes != feature_axes:
+                # The primitive normalises and scales along one and the same axis.
+                return orig(self, x, mask=mask)
+
             scale_param = None
             if getattr(self, "use_scale", True):
                 scale_field = getattr(self, "scale", None)
@@ -434,10 +450,7 @@ class RMSNormPlugin(PrimitiveLeafPlugin):
             stats_dtype = jnp.promote_types(result_dtype, jnp.float32)
             x_stats = jnp.asarray(x_promoted, dtype=stats_dtype)
 
-            axis = getattr(self, "feature_axes", -1)
-            if isinstance(axis, Sequence):
-                axis = axis[0]
-            axis = int(axis)
+            axis = feature_axes[0]
 
             feat_dim = x_stats.shape[axis]
             if feat_dim is None:
